@@ -403,6 +403,22 @@ def wave9_rules(ctx):
         if not ({"a", "_"} <= acc) or "." in acc or "-" in acc:
             continue   # not an identifier table
         tabs += 1
+        # beyond ASCII: whatever the table accepts is pasted into the script as part of a name, so it has to be an ECMAScript
+        # identifier character (Unicode ID_Start / ID_Continue, approximated by Python's XID tables); superscripts, fractions,
+        # circled digits and the like are alphanumeric for Rust but not identifier characters
+        probes = [chr(c) for c in list(range(0xA0, 0x100)) + [0x2070, 0x2074, 0x2081, 0x2153, 0x2460, 0x2160, 0x3007, 0x4E2D, 0x3042, 0x0301, 0x200D, 0x1F600, 0x0660, 0x00B2, 0x00BD, 0x2028, 0xFEFF]]
+        wide = []
+        for ch in probes:
+            it = ai.Interp(idx=tc)
+            try:
+                outs = it.run(f.body, {pn: ch})
+            except ai.TooManyPaths:
+                outs = []
+            vs = set(o.value for o in outs)
+            if vs == {True} and not any(o.tainted for o in outs) and not ("a" + ch).isidentifier():
+                wide.append("U+%04X" % ord(ch))
+        obs.append(ob("C15.ident/alphabet/%s/non-ascii" % f.name, not wide, ctx.where(f), "no character outside ASCII is accepted that ECMAScript does not allow in a name" if not wide else "accepts %s, which cannot be part of an ECMAScript name" % ", ".join(wide[:6]),
+                      witness=None if not wide else "{{ x² }} emits `D.x²`, a syntax error"))
         want = FOLLOW if "0" in acc else START
         role = "following" if "0" in acc else "first"
         miss, extra = sorted(want - acc), sorted(acc - want)
